@@ -102,12 +102,22 @@ def run_case(desc, ctx):
         n = int(rng.choice([3, 4, 5, 8, 10, int(rng.integers(3, 200)), int(rng.integers(200, 2001))]))
         lam = float(rng.choice([1600.0, 10.0 ** rng.uniform(-3, 7)]))
         y = make_series(shape, n, rng)
+        form = str(rng.choice(["plain", "plain", "readonly", "strided", "int"]))
+        if form == "readonly":
+            y.setflags(write=False)
+        elif form == "strided":
+            buf = np.zeros(2 * n)
+            buf[::2] = y
+            y = buf[::2]
+        elif form == "int":
+            y = np.round(y / (float(np.max(np.abs(y))) or 1.0) * 1000).astype(np.int64)
+        c[f"series_{form}"] = c.get(f"series_{form}", 0) + 1
         sc = float(np.max(np.abs(y))) or 1.0
         w = {"shape": shape, "n": n, "lambda": lam, "series_head": y[:5], "scale": sc}
         # ---------------- hp_filter
         try:
             with quiet():
-                cycle, trend = ts.hp_filter(y.copy(), lam)
+                cycle, trend = ts.hp_filter(y, lam)
             cycle, trend = np.asarray(cycle), np.asarray(trend)
         except Exception as e:  # noqa: BLE001
             bad(f"hp_filter raised {type(e).__name__}: {e}", w)
@@ -133,7 +143,7 @@ def run_case(desc, ctx):
         # ---------------- wrappers
         try:
             with quiet():
-                cyc1600 = np.asarray(ts.hp_cycle_lamb1600_filter(y.copy()))
+                cyc1600 = np.asarray(ts.hp_cycle_lamb1600_filter(y))
             refc = y - ref_hp_trend(y, 1600.0)
             if cyc1600.shape != y.shape or not np.max(np.abs(cyc1600 - refc)) <= 1e-8 * sc:
                 bad("hp_cycle_lamb1600_filter != series - HP trend at lambda 1600", w)
